@@ -132,8 +132,12 @@ def prune(prefix, keep):
         return
     ds = [d for d in os.listdir(BUILD) if d.startswith(prefix + "-") and os.path.join(BUILD, d) != keep]
     ds.sort(key=lambda d: os.path.getmtime(os.path.join(BUILD, d)))
-    for d in ds[:-1] if len(ds) > 1 else []:
-        shutil.rmtree(os.path.join(BUILD, d), ignore_errors=True)
+    # keep the 8 most recent per flavour (several trees may be under test at once), drop
+    # anything else that has not been used for an hour
+    now = time.time()
+    for d in ds[:-8] if len(ds) > 8 else []:
+        if now - os.path.getmtime(os.path.join(BUILD, d)) > 3600 or len(ds) > 24:
+            shutil.rmtree(os.path.join(BUILD, d), ignore_errors=True)
 
 
 def build_boot():
